@@ -2,7 +2,10 @@ package rules
 
 import (
 	"fmt"
+	"go/constant"
+	"go/token"
 	"go/types"
+	"math"
 	"sort"
 	"strings"
 
@@ -39,7 +42,7 @@ func runC18(c *core.Ctx, r *core.Reporter) {
 // c18conv: in the Go data bridge an integer becomes a Lisp integer through value-preserving conversions only.
 func c18conv(c *core.Ctx, r *core.Reporter) {
 	const rule = "C18.conv"
-	r.Rule(rule, "in SimpleObject every conversion of a Go integer into the Lisp number it builds is value preserving (the target is at least as wide and can represent the source's sign): a narrowing conversion such as an 8-bit type for a uint16 silently changes the value that later comes back from Simplify", 8)
+	r.Rule(rule, "in SimpleObject every conversion of a Go integer into the Lisp number it builds is value preserving (the target is at least as wide and can represent the source's sign): a narrowing conversion such as an 8-bit type for a uint16 silently changes the value that later comes back from Simplify", 7)
 	fnObj := c.LookupFunc("", "SimpleObject")
 	if fnObj == nil {
 		r.Undecided(rule, "slip.SimpleObject", "-", "anchor does not resolve")
@@ -75,26 +78,97 @@ func c18conv(c *core.Ctx, r *core.Reporter) {
 		}
 		return ik{}, false
 	}
+	fns := []*ssa.Function{fn}
 	for _, b := range fn.Blocks {
 		for _, in := range b.Instrs {
-			mi, ok := in.(*ssa.MakeInterface)
-			if !ok || !core.IsNamed(mi.Type(), core.SlipPath, "Object") {
-				continue
+			if h := objectHelper(in); h != nil {
+				fns = append(fns, h)
 			}
-			cv, ok := mi.X.(*ssa.Convert)
-			if !ok {
-				continue
-			}
-			from, ok1 := kind(cv.X.Type())
-			to, ok2 := kind(cv.Type())
-			if !ok1 || !ok2 {
-				continue
-			}
-			lossless := (from.signed == to.signed && to.bits >= from.bits) || (!from.signed && to.signed && to.bits > from.bits)
-			key := fmt.Sprintf("slip.SimpleObject|%s -> %s", types.TypeString(cv.X.Type(), nil), types.TypeString(cv.Type(), func(p *types.Package) string { return p.Name() }))
-			r.Decide(lossless, rule, key, c.Pos(cv.Pos()), fmt.Sprintf("conversion is value preserving: %v", lossless))
 		}
 	}
+	seenKey := map[string]bool{}
+	for _, f := range fns {
+		for _, b := range f.Blocks {
+			for _, in := range b.Instrs {
+				mi, ok := in.(*ssa.MakeInterface)
+				if !ok || !core.IsNamed(mi.Type(), core.SlipPath, "Object") {
+					continue
+				}
+				cv, ok := mi.X.(*ssa.Convert)
+				if !ok {
+					continue
+				}
+				from, ok1 := kind(cv.X.Type())
+				to, ok2 := kind(cv.Type())
+				if !ok1 || !ok2 {
+					continue
+				}
+				lossless := (from.signed == to.signed && to.bits >= from.bits) || (!from.signed && to.signed && to.bits > from.bits)
+				how := ""
+				if !lossless && !from.signed && to.signed && to.bits == from.bits && to.bits == 64 && atMostMaxInt64(f, b, cv.X) {
+					lossless, how = true, " (the operand was compared with math.MaxInt64 and this is the not-above outcome)"
+				}
+				key := fmt.Sprintf("slip.SimpleObject|%s -> %s", types.TypeString(cv.X.Type(), nil), types.TypeString(cv.Type(), func(p *types.Package) string { return p.Name() }))
+				if f != fn {
+					key = fmt.Sprintf("slip.%s|%s -> %s", f.Name(), types.TypeString(cv.X.Type(), nil), types.TypeString(cv.Type(), func(p *types.Package) string { return p.Name() }))
+				}
+				if seenKey[key] {
+					continue
+				}
+				seenKey[key] = true
+				r.Decide(lossless, rule, key, c.Pos(cv.Pos()), fmt.Sprintf("conversion is value preserving: %v%s", lossless, how))
+			}
+		}
+	}
+}
+
+// objectHelper: the instruction is a static call of a function of the root package that returns one slip.Object.
+func objectHelper(in ssa.Instruction) *ssa.Function {
+	call, ok := in.(*ssa.Call)
+	if !ok {
+		return nil
+	}
+	g := call.Call.StaticCallee()
+	if g == nil || g.Blocks == nil || g.Pkg == nil || g.Pkg.Pkg.Path() != core.SlipPath || g.Name() == "SimpleObject" {
+		return nil
+	}
+	res := g.Signature.Results()
+	if res.Len() != 1 || !core.IsNamed(res.At(0).Type(), core.SlipPath, "Object") {
+		return nil
+	}
+	// only builders of numbers from machine integers are of interest here
+	if g.Signature.Params().Len() != 1 {
+		return nil
+	}
+	if bt, ok := g.Signature.Params().At(0).Type().Underlying().(*types.Basic); !ok || bt.Info()&types.IsInteger == 0 {
+		return nil
+	}
+	return g
+}
+
+// atMostMaxInt64: every path to b crosses the outcome v <= math.MaxInt64 of a comparison.
+func atMostMaxInt64(fn *ssa.Function, b *ssa.BasicBlock, v ssa.Value) bool {
+	return core.Separates(fn, b, func(*ssa.Function) bool { return false }, func(ifi *ssa.If, branch bool) bool {
+		bo, ok := ifi.Cond.(*ssa.BinOp)
+		if !ok {
+			return false
+		}
+		isMax := func(x ssa.Value) bool {
+			k, ok := x.(*ssa.Const)
+			if !ok || k.Value == nil || k.Value.Kind() != constant.Int {
+				return false
+			}
+			n, exact := constant.Uint64Val(k.Value)
+			return exact && n == math.MaxInt64
+		}
+		switch {
+		case bo.X == v && isMax(bo.Y): // v OP max
+			return (bo.Op == token.LEQ && branch) || (bo.Op == token.GTR && !branch)
+		case bo.Y == v && isMax(bo.X): // max OP v
+			return (bo.Op == token.GEQ && branch) || (bo.Op == token.LSS && !branch)
+		}
+		return false
+	})
 }
 
 // c18rootback: the JSONPath editing operations of ojg return the (possibly new) root: removing from or
@@ -302,6 +376,7 @@ func c18bridge(c *core.Ctx, r *core.Reporter) {
 				continue
 			}
 			produced := map[string]types.Type{}
+			var helpers []*ssa.Function
 			for _, x := range fn.Blocks {
 				if !arm.Dominates(x) {
 					continue
@@ -309,6 +384,17 @@ func c18bridge(c *core.Ctx, r *core.Reporter) {
 				for _, xi := range x.Instrs {
 					if mi, ok := xi.(*ssa.MakeInterface); ok && core.IsNamed(mi.Type(), core.SlipPath, "Object") {
 						produced[kindOf(mi.X.Type())] = mi.X.Type()
+					}
+					// a helper of the module that builds the object for the arm
+					if h := objectHelper(xi); h != nil {
+						helpers = append(helpers, h)
+						for _, hb := range h.Blocks {
+							for _, hi := range hb.Instrs {
+								if mi, ok := hi.(*ssa.MakeInterface); ok && core.IsNamed(mi.Type(), core.SlipPath, "Object") {
+									produced[kindOf(mi.X.Type())] = mi.X.Type()
+								}
+							}
+						}
 					}
 				}
 			}
@@ -345,10 +431,16 @@ func c18bridge(c *core.Ctx, r *core.Reporter) {
 			if k == "uint64" || k == "uint" {
 				// a 64-bit unsigned value does not fit the signed fixnum: the arm must test the range or build a bignum
 				guarded := false
+				var scan []*ssa.BasicBlock
 				for _, x := range fn.Blocks {
-					if !arm.Dominates(x) {
-						continue
+					if arm.Dominates(x) {
+						scan = append(scan, x)
 					}
+				}
+				for _, h := range helpers {
+					scan = append(scan, h.Blocks...)
+				}
+				for _, x := range scan {
 					if _, ok := x.Instrs[len(x.Instrs)-1].(*ssa.If); ok {
 						guarded = true
 					}
